@@ -36,7 +36,7 @@ type C10Block struct {
 	Noise  uint64  `json:"noise"`
 }
 
-var c10Kinds = []string{"order", "junk", "reads", "revert", "revert-account", "addvsset", "noop-state", "noop-account", "reopen", "txend"}
+var c10Kinds = []string{"order", "junk", "reads", "revert", "revert-account", "addvsset", "noop-state", "noop-account", "reopen", "txend", "pipeline"}
 
 func genC10(r *sim.Rand, tier string) *sim.Plan {
 	cfg := C10Config{CacheB: []int{0, 1, 2, 3, 8}[r.Intn(5)]}
@@ -51,6 +51,11 @@ func genC10(r *sim.Rand, tier string) *sim.Plan {
 	}
 	if len(cfg.Kinds) == 0 {
 		cfg.Kinds = []string{"order"}
+	}
+	if hasKind(cfg.Kinds, "pipeline") {
+		// blocks are flushed one block ahead of their commit: only with the shipped cache sizes (the cache is
+		// the only holder of a flushed block)
+		cfg.CacheB = 0
 	}
 	nb := r.Range(1, 6)
 	if tier == "thorough" {
@@ -256,6 +261,13 @@ func runC10(p *sim.Plan, cfg C10Config, mode string, kinds []string, res *sim.Re
 	if mode == "B" {
 		cache = cfg.CacheB
 	}
+	pipeline := mode == "B" && hasKind(kinds, "pipeline") && cache == 0
+	drain := func(n *node, m *model) {
+		for len(n.pending) > 0 {
+			n.commitPending()
+			m.commitPending()
+		}
+	}
 	n, err := newNode(false, cache)
 	if err != nil {
 		out.err = err.Error()
@@ -277,6 +289,7 @@ func runC10(p *sim.Plan, cfg C10Config, mode string, kinds []string, res *sim.Re
 		}
 		bi++
 		if mode == "B" && hasKind(kinds, "reopen") && blk.Noise%3 == 0 {
+			drain(n, m)
 			if err := n.reopen(); err != nil {
 				out.err = "reopen: " + err.Error()
 				return
@@ -294,10 +307,32 @@ func runC10(p *sim.Plan, cfg C10Config, mode string, kinds []string, res *sim.Re
 				applyWriteModel(m, w)
 			}
 		}
+		if pipeline {
+			// the executor runs one block ahead of persistence; a reader touches the block's keys in between
+			root := n.flush()
+			m.flush()
+			res.Count("var_pipeline")
+			if blk.Noise%2 == 0 {
+				for _, w := range blk.Writes {
+					if w.Op == "set" || w.Op == "del" {
+						n.sl.GetState(uniAddrs[w.A], []byte(uniKeys[w.K]))
+					} else {
+						n.sl.GetBalance(uniAddrs[w.A])
+					}
+				}
+			}
+			if len(n.pending) > 1 {
+				n.commitPending()
+				m.commitPending()
+			}
+			out.roots = append(out.roots, root.String())
+			continue
+		}
 		root, _ := n.commit()
 		m.commit()
 		out.roots = append(out.roots, root.String())
 	}
+	drain(n, m)
 	return
 }
 
